@@ -250,6 +250,9 @@ def gen_case(rng):
             ("lst", {"k": "Array", "kw": {"items": {"k": "String", "kw": {"format": "uuid"}}}}),
             ("x_all", {"k": "AllOf", "els": [wgen.element(2), wgen.element(2)], "kw": {}}),
             ("any", {"k": "AnyOf", "els": [wgen.element(2), {"k": "String", "kw": {"format": "date-time"}}], "kw": {}}),
+            # places where values are compared with schema literals
+            ("enm", {"k": "Element", "kw": {"enum": rng.sample(["a", "ab", 1, True, 0, None, 2.5, "x"], rng.randint(2, 4))}}),
+            ("unq", {"k": "Array", "kw": {"items": {"k": "Element", "kw": {}}, "uniqueItems": True}}),
         ]
         picks = rng.sample(menu, rng.randint(1, 3))
         if rng.random() < 0.6 and not any(a in ("fmt", "lst", "any") for a, _ in picks):
